@@ -257,9 +257,15 @@ func (ci *ChunkInfo) getCidSort(rootCid, cid boson.Address) int {
 	defer ci.cp.RUnlock()
 	pyramid, err := ci.getPyramid(rootCid)
 	if err != nil {
-		return 0
+		return -1
 	}
-	return pyramid.cids[cid.String()].sort
+	// only data chunks of the file have a position; -1 for anything else
+	// (manifest and intermediate chunks are read under the same root context)
+	c, ok := pyramid.cids[cid.String()]
+	if !ok {
+		return -1
+	}
+	return c.sort
 }
 
 // func (cp *chunkPyramid) updateCidSort(rootCid, cid boson.Address, sort int) {
